@@ -182,6 +182,70 @@ def fn_fingerprint(facts, path):
     return _norm_sig(m.get("sig", ""), path), callees
 
 
+DEP_CRATES = ["nmt_rs", "leopard_codec"]
+DEP_PACKAGES = ["nmt-rs", "leopard-codec"]
+
+
+def dep_lock_key(repo=REPO):
+    """The [[package]] entries of the analysed dependencies in the tree's Cargo.lock."""
+    import re
+
+    lock = open(os.path.join(repo, "Cargo.lock")).read()
+    parts = []
+    for pkg in DEP_PACKAGES:
+        for m in re.finditer(r'\[\[package\]\]\nname = "%s"\n.*?(?=\n\[\[package\]\]|\Z)' % re.escape(pkg), lock, re.S):
+            parts.append(m.group(0))
+    return hashlib.sha256(("\n".join(parts) + driver_hash()).encode()).hexdigest()[:16], parts
+
+
+def ensure_dep_facts(repo=REPO, verbose=True):
+    """MIR facts of the dependency versions pinned by <repo>/Cargo.lock (harness crate depfacts/)."""
+    os.makedirs(CACHE, exist_ok=True)
+    key, parts = dep_lock_key(repo)
+    if len(parts) != len(DEP_PACKAGES):
+        raise BuildError("Cargo.lock does not pin exactly one version of each of %s" % DEP_PACKAGES)
+    fd = os.path.join(CACHE, "depfacts-" + key)
+    with open(os.path.join(CACHE, "depfacts.lock"), "w") as lock:
+        fcntl.flock(lock, fcntl.LOCK_EX)
+        if all(os.path.exists(os.path.join(fd, c + ".bodies.jsonl")) for c in DEP_CRATES):
+            return fd, {"key": key, "reused": True}
+        ensure_driver()
+        t0 = time.time()
+        tmp = fd + ".tmp"
+        shutil.rmtree(tmp, ignore_errors=True)
+        os.makedirs(tmp)
+        harness = os.path.join(VERIF, "depfacts")
+        shutil.copy(os.path.join(repo, "Cargo.lock"), os.path.join(harness, "Cargo.lock"))
+        target = os.path.join(CACHE, "target-deps")
+        fp = os.path.join(target, "debug", ".fingerprint")
+        if os.path.isdir(fp):
+            for n in os.listdir(fp):
+                if n.startswith(("nmt-rs-", "leopard-codec-", "lumina-depfacts-")):
+                    shutil.rmtree(os.path.join(fp, n), ignore_errors=True)
+        env = dict(os.environ)
+        env.update(
+            CARGO_NET_OFFLINE="true",
+            RUSTFLAGS="-Awarnings",
+            RUSTC_WRAPPER=DRIVER,
+            LUMINA_FACTS_OUT=tmp,
+            LUMINA_FACTS_CRATES=",".join(DEP_CRATES),
+            CARGO_TARGET_DIR=target,
+            LD_LIBRARY_PATH=_sysroot() + "/lib:" + os.environ.get("LD_LIBRARY_PATH", ""),
+        )
+        env.pop("RUSTC_WORKSPACE_WRAPPER", None)
+        if verbose:
+            print("[facts] extracting MIR facts of %s ..." % ", ".join(DEP_PACKAGES), file=sys.stderr)
+        r = subprocess.run(["cargo", "+nightly", "check", "--offline"], cwd=harness, env=env, stdout=subprocess.PIPE, stderr=subprocess.STDOUT, text=True)
+        if r.returncode != 0:
+            raise BuildError("cargo check of the dependency harness failed:\n%s" % r.stdout[-4000:])
+        missing = [c for c in DEP_CRATES if not os.path.exists(os.path.join(tmp, c + ".bodies.jsonl"))]
+        if missing:
+            raise BuildError("dependency fact files missing after extraction: %s\n%s" % (missing, r.stdout[-2000:]))
+        shutil.rmtree(fd, ignore_errors=True)
+        os.rename(tmp, fd)
+        return fd, {"key": key, "reused": False, "extract_s": round(time.time() - t0, 2)}
+
+
 class Crate:
     """Lazy view of one crate's fact files."""
 
@@ -244,10 +308,21 @@ class Facts:
         self.dir = fdir
         self.info = info or {}
         self.crates = {c: Crate(fdir, c) for c in CRATES}
+        self.names = list(CRATES)
         self.loaded_bodies = 0
         self.renames = {}  # current name -> name on the reference tree
         if os.environ.get("LUMINA_NO_RENAMES") != "1":
             self.normalise_renames()
+
+    def load_deps(self, repo=REPO, verbose=True):
+        """Thorough tier of engine P: add the MIR facts of the pinned nmt-rs / leopard-codec."""
+        if DEP_CRATES[0] in self.crates:
+            return
+        fd, info = ensure_dep_facts(repo, verbose=verbose)
+        for c in DEP_CRATES:
+            self.crates[c] = Crate(fd, c)
+            self.names.append(c)
+        self.info = dict(self.info, dep_facts=info)
 
     # ---------------------------------------------------------------- rename normalisation
     def fn_paths(self, crate):
@@ -304,13 +379,13 @@ class Facts:
 
     def crate_of(self, path):
         # local paths are crate-qualified: `celestia_types::x`, `<celestia_types::A as B>::m`
-        for c in CRATES:
+        for c in self.names:
             if path in self.crates[c].index:
                 return c
         return None
 
     def body(self, path):
-        for c in CRATES:
+        for c in self.names:
             cr = self.crates[c]
             if path in cr.index:
                 b = cr.body(path)
@@ -324,13 +399,13 @@ class Facts:
         if crate:
             return list(self.crates[crate].order)
         out = []
-        for c in CRATES:
+        for c in self.names:
             out += self.crates[c].order
         return out
 
     def find(self, pred, crates=None):
         out = []
-        for c in crates or CRATES:
+        for c in crates or self.names:
             for p in self.crates[c].order:
                 if pred(p):
                     out.append(p)
@@ -345,24 +420,24 @@ class Facts:
         return [path] + [p for p in self.crates[c].order if p.startswith(pre)]
 
     def body_count(self):
-        return sum(len(self.crates[c].order) for c in CRATES)
+        return sum(len(self.crates[c].order) for c in self.names)
 
     def adt(self, path):
-        for c in CRATES:
+        for c in self.names:
             for a in self.crates[c].meta["adts"]:
                 if a["path"] == path:
                     return a
         return None
 
     def const(self, path):
-        for c in CRATES:
+        for c in self.names:
             for a in self.crates[c].meta["consts"]:
                 if a["path"] == path:
                     return a
         return None
 
     def fn_meta(self, path):
-        for c in CRATES:
+        for c in self.names:
             for a in self.crates[c].meta["fns"]:
                 if a["path"] == path:
                     return a
